@@ -13,6 +13,7 @@ def suites : List (String × Suite) := [
   ("c18", Tally.Drv.C18.suite),
   ("registry", Tally.Drv.Registry.suite),
   ("c09", Tally.Drv.C09.suite),
+  ("c09lock", Tally.Drv.C09Lock.suite),
   ("c15", Tally.Drv.C15.suite),
   ("c17", Tally.Drv.C17.suite),
   ("c14", Tally.Drv.C14.suite),
